@@ -7,6 +7,8 @@ import Driver.Quotes
 import Driver.Auth
 import Driver.Lair
 import Driver.Feeflow
+import Driver.Toggles
+import Driver.Config
 namespace Driver
 
 /-- the state of whichever engine the last `init <engine> …` line selected
@@ -18,6 +20,8 @@ inductive EngineState where
   | quotes (q : Driver.Quotes.QSt)
   | lair (d : LairDrv)
   | feeflow (fs : FeeflowState)
+  | toggles (t : TogglesD.TogglesSt)
+  | config (c : WW.Config.Cfg)
 
 /-- `init <engine> k=v …` : select the engine and build its initial state; prints the first observation -/
 def initLine (ws : List String) : EngineState × String :=
@@ -42,6 +46,14 @@ def initLine (ws : List String) : EngineState × String :=
     match feeflowInit rest with
     | (some fs, o) => (.feeflow fs, o)
     | (none, o) => (.none, o)
+  | "toggles" :: rest =>
+    match TogglesD.togglesInit rest with
+    | (some t, o) => (.toggles t, o)
+    | (none, o) => (.none, o)
+  | "config" :: rest =>
+    match ConfigD.configInit rest with
+    | (some c, o) => (.config c, o)
+    | (none, o) => (.none, o)
   | _ => (.none, "bad-op")
 
 /-- an operation line for the currently selected engine -/
@@ -53,6 +65,8 @@ def opLine (st : EngineState) (ws : List String) : EngineState × String :=
   | .quotes q => let (q', o) := Driver.Quotes.opLine q ws; (.quotes q', o)
   | .lair d => let (d', o) := lairOp d ws; (.lair d', o)
   | .feeflow fs => let (fs', o) := FF.opLine fs ws; (.feeflow fs', o)
+  | .toggles t => let (t', o) := TogglesD.togglesOp t ws; (.toggles t', o)
+  | .config c => let (c', o) := ConfigD.configOp c ws; (.config c', o)
 
 def stepLine (st : EngineState) (line : String) : EngineState × Option String :=
   match words line with
